@@ -1511,12 +1511,6 @@ const crLeadingWhy = "multi-line literal with a CR inside the leading white spac
 // untriaged disagreement.
 var exclClasses = []exclClass{
 	{
-		name: "unquote-U-escape-int32-overflow", known: true,
-		verdicts: []string{"-U-", "-!-"},
-		why:      `literal.unquoteChar accumulates \U digits in an int32 rune: values >= 0x80000000 wrap negative, pass the "> utf8.MaxRune" test and are taken for the internal sentinels (-1 terminatedByQuote, -2 terminatedByExpr, -3 escapedNewline) or hit panic("unreachable"); the scanner rejects them as invalid code points`,
-		pred:     func(L string, num bool, h int) bool { return !num && reUOverflow.MatchString(L) },
-	},
-	{
 		name:     "surrogate-escape",
 		verdicts: []string{"S-P"},
 		why:      `\uD800-\uDFFF escapes: the scanner only checks x <= unicode.MaxRune (TODO in scanEscape), literal.Unquote pairs surrogates and rejects unmatched halves (value-level rule; spec.md lists "\uD800" as illegal)`,
@@ -2298,8 +2292,8 @@ func hasClassA(src []byte, class string) bool {
 
 // Canonical witnesses, run on every seed before the generated cases.
 var canonicalLits = []string{
-	`"\UFFFFFFFC"`,           // unquote-U-escape-int32-overflow: panic("unreachable")
-	`"\UFFFFFFFF"`,           // unquote-U-escape-int32-overflow: accepted as terminator
+	`"\UFFFFFFFC"`,           // regression witness of fix unquote-U: an int32 accumulator panics here
+	`"\UFFFFFFFF"`,           // regression witness of fix unquote-U: an int32 accumulator accepts it as terminator
 	"\"\"\"\na\\\nb\n\"\"\"", // escaped-newline-scanner-rejects
 	"1.3Ki",                  // si-fraction-not-integral (spec.md example)
 	`##"""#"##`,              // hash-string-content-starts-with-two-quotes
